@@ -150,6 +150,9 @@ func CheckAlias(r *Run, g string, s *AliasSpec) map[string]any {
 				nalias++
 			}
 		}
+		if ok {
+			secondaryAlias(r, g, s, st, name, pt, et, vals, func(i int) (bool, reflect.Type) { return params[i].alias, params[i].t }, len(params), equal)
+		}
 		if !ok || nalias < 2 {
 			if !ok {
 				st.Skipped = append(st.Skipped, name)
@@ -282,4 +285,138 @@ func CheckAlias(r *Run, g string, s *AliasSpec) map[string]any {
 	r.Tag(s.Prefix)
 	r.Note("alias_coverage", s.Prefix, fmt.Sprintf("patterns=%d calls=%d methods=[%s] not_enumerated=[%s]", st.Patterns, st.Calls, strings.Join(st.Methods, " "), strings.Join(st.Skipped, " ")))
 	return map[string]any{"type": s.Prefix, "methods": strings.Join(st.Methods, " "), "not_enumerated": strings.Join(st.Skipped, " "), "alias_patterns": st.Patterns, "calls": st.Calls}
+}
+
+
+var bigIntMenu = []*big.Int{big.NewInt(5), big.NewInt(-3), new(big.Int).Lsh(big.NewInt(1), 70), new(big.Int).Neg(new(big.Int).Add(new(big.Int).Lsh(big.NewInt(1), 130), big.NewInt(9))), new(big.Int)}
+
+// secondaryAlias: pointer operands of a type other than the receiver's that occur at two or more positions
+// (e.g. the two *big.Int scalars of a joint scalar multiplication, two *G1Affine bases) are passed as ONE object
+// (every pair of positions, and all positions) and the result is compared with the call on distinct objects
+// holding the same value; the shared operand must keep its value.
+func secondaryAlias(r *Run, g string, s *AliasSpec, st *aliasStats, name string, pt, et reflect.Type, vals []any,
+	param func(i int) (bool, reflect.Type), np int, equal func(a, b reflect.Value) bool) {
+	bigT := reflect.TypeOf((*big.Int)(nil))
+	classes := map[reflect.Type][]int{}
+	for i := 1; i < np; i++ {
+		al, t := param(i)
+		if al || t.Kind() != reflect.Ptr {
+			continue
+		}
+		if _, have := s.Others[t]; have || t == bigT {
+			classes[t] = append(classes[t], i)
+		}
+	}
+	menu := func(t reflect.Type) int {
+		if t == bigT {
+			return len(bigIntMenu)
+		}
+		return len(s.Others[t])
+	}
+	mk := func(t reflect.Type, k int) reflect.Value {
+		if t == bigT {
+			return reflect.ValueOf(new(big.Int).Set(bigIntMenu[k%len(bigIntMenu)]))
+		}
+		return cloneVal(s.Others[t][k%len(s.Others[t])].(any))
+	}
+	fill := func(t reflect.Type, variant int) reflect.Value {
+		switch {
+		case t == pt:
+			return cloneVal(vals[(variant+1)%len(vals)])
+		case t == et && et.Kind() == reflect.Slice:
+			return cloneVal(vals[(variant+1)%len(vals)]).Elem()
+		case t == et:
+			return cloneVal(vals[(variant+1)%len(vals)]).Elem()
+		case t == bigT:
+			return mk(t, variant+1)
+		case t == reflect.TypeOf(big.Int{}):
+			return reflect.ValueOf(*big.NewInt(7))
+		case t.Kind() == reflect.Bool:
+			return reflect.ValueOf(variant%2 == 0)
+		case t.Kind() == reflect.Uint64 || t.Kind() == reflect.Int || t.Kind() == reflect.Uint || t.Kind() == reflect.Int64 || t.Kind() == reflect.Uint8:
+			return reflect.ValueOf([]int{3, 0, 1}[variant%3]).Convert(t)
+		}
+		sv := s.Others[t]
+		v := sv[variant%len(sv)]
+		if t.Kind() == reflect.Ptr {
+			return cloneVal(v)
+		}
+		return cloneVal(v).Elem()
+	}
+	var types []reflect.Type
+	for t := range classes {
+		if len(classes[t]) >= 2 {
+			types = append(types, t)
+		}
+	}
+	sort.Slice(types, func(i, j int) bool { return types[i].String() < types[j].String() })
+	for _, t := range types {
+		pos := classes[t]
+		var subsets [][]int
+		for a := 0; a < len(pos); a++ {
+			for b := a + 1; b < len(pos); b++ {
+				subsets = append(subsets, []int{pos[a], pos[b]})
+			}
+		}
+		if len(pos) > 2 {
+			subsets = append(subsets, pos)
+		}
+		for _, sub := range subsets {
+			in := map[int]bool{}
+			for _, i := range sub {
+				in[i] = true
+			}
+			st.Patterns++
+			for k := 0; k < menu(t); k++ {
+				for variant := 0; variant < 2; variant++ {
+					build := func(shared bool) (reflect.Value, []reflect.Value, reflect.Value) {
+						recv := cloneVal(vals[variant%len(vals)])
+						obj := mk(t, k)
+						args := make([]reflect.Value, 0, np-1)
+						for i := 1; i < np; i++ {
+							_, ti := param(i)
+							switch {
+							case in[i] && shared:
+								args = append(args, obj)
+							case in[i]:
+								args = append(args, mk(t, k))
+							default:
+								args = append(args, fill(ti, variant+i))
+							}
+						}
+						return recv, args, obj
+					}
+					rA, aA, obj := build(true)
+					rR, aR, _ := build(false)
+					before := DeepDump(obj.Elem().Interface())
+					pnA := Guard(func() { rA.MethodByName(name).Call(aA) })
+					pnR := Guard(func() { rR.MethodByName(name).Call(aR) })
+					st.Calls += 2
+					id := fmt.Sprintf("operands %v are one %s object,value#%d,variant=%d", sub, t, k, variant)
+					pat := fmt.Sprintf("shared-%s", strings.TrimPrefix(t.String(), "*"))
+					switch {
+					case pnA != "" && pnR != "":
+					case pnA != "" || pnR != "":
+						r.FailIn(g, s.Prefix+"/"+name+"/panic-only-when-"+map[bool]string{true: "aliased", false: "distinct"}[pnA != ""], id, fmt.Sprintf("%s.%s %s: %s%s", s.Prefix, name, id, pnA, pnR), nil)
+					default:
+						if !equal(rA, rR) {
+							r.FailIn(g, s.Prefix+"/"+name+"/result-depends-on-aliasing/"+pat, id, fmt.Sprintf("%s.%s gives another result when %s", s.Prefix, name, id), nil)
+						}
+						if DeepDump(obj.Elem().Interface()) != before {
+							r.FailIn(g, s.Prefix+"/"+name+"/operand-modified/"+pat, id, fmt.Sprintf("%s.%s modifies the shared operand (%s)", s.Prefix, name, id), nil)
+						}
+					}
+				}
+			}
+		}
+		found := false
+		for _, m := range st.Methods {
+			if m == name+"(shared operands)" {
+				found = true
+			}
+		}
+		if !found {
+			st.Methods = append(st.Methods, name+"(shared operands)")
+		}
+	}
 }
